@@ -22,7 +22,8 @@ OUTSIDE = [
     "lhq topologies other than: level 0 shared by all streams, deeper levels private to each stream (hwloc calls are stubs)",
     "bounded-buffer sizes other than the enumerated ones (lfq/ltq/pbq wired with 1 or 2 slots to force overflow; lhq's 96*(level+1)/cores "
     "scaled down through an overlay in the *_small queries)",
-    "__parsec_schedule_vp / next_task retention in scheduling.c (not encoded yet)",
+    "dispatch clause (__parsec_schedule_vp / next_task / flush_private): the installed module is a recording stub, 2 VPs, rings of <=2; "
+    "the flush of a retained task whose ring had >=2 tasks is the known finding C08-flush-private-stale-ring (excluded class, reported separately)",
     "remove()/teardown of the modules",
 ]
 ASSUMPTIONS = [
@@ -169,7 +170,7 @@ def _q(m, nes=2, n1=2, n2=1, resched=False, tiers=("quick", "thorough"), qsize=N
     if streams is not None:
         nm += "_s%d%d%d" % streams
     return Q(nm, srcs, defs=defs + list(extra_defs), unwind=unwind, unwindset=unwindset, object_bits=12, units=[UNIT[m]] + units, info=info,
-             timeout=timeout, patches=patches, gen=_ov_inc, tiers=tiers, slow=slow, restrict_fp=restrict_fp)
+             timeout=timeout, patches=patches, gen=_ov_inc, tiers=tiers, slow=slow or (resched and m in ("rnd", "pbq")), restrict_fp=restrict_fp)
 
 
 def queries(ctx):
@@ -193,7 +194,8 @@ def queries(ctx):
         for st in [(0, 1, 1), (1, 0, 0), (0, 0, 1), (1, 1, 0)]:
             quick = (d, st) in [((0, 1), (0, 1, 1)), ((1, 1), (1, 0, 0)), ((1, 0), (0, 0, 1))]
             qs.append(_q("spq", dist=d, streams=st, tiers=both if quick else th))
-            qs.append(_q("spq", dist=d, streams=st, resched=True, tiers=th))
+            # (no re-schedule variant for spq here: the step makes the bucket list symbolic -- no verdict in 2400 s; the re-schedule
+            #  of a selected task on spq is checked, with exactly-once accounting, by C09's spq_*_rs* queries)
     # lhq: real flow_init over a 2-level topology; queue sizes scaled down (overflow), distances and streams enumerated
     for (n1, n2, d, st, quick) in [(2, 1, (0, 1), (0, 1, 1), True), (2, 1, (1, 0), (0, 1, 1), True), (2, 1, (2, 1), (1, 0, 0), True),
                                    (3, 1, (0, 0), (0, 1, 1), True), (2, 1, (0, 2), (0, 1, 1), False), (2, 1, (2, 0), (0, 1, 1), False),
@@ -206,6 +208,19 @@ def queries(ctx):
         qs.append(_q(m, qsize=2, tiers=th))
         qs.append(_q(m, qsize=1, resched=True, tiers=th))
         qs.append(_q(m, qsize=2, n1=3, n2=1, tiers=th, unwind=7))
+    # --- dispatch clause: __parsec_schedule_vp / next_task retention / __parsec_schedule_flush_private (real scheduling.c)
+    qs.append(Q("schedule_vp", ["hvp.c", "repo:parsec/scheduling.c"], defs=["VP_NVP=2", "NES=2"], unwind=6, object_bits=12,
+                incs=[os.path.join(ctx.repo, "parsec")],      # scheduling.c includes its siblings by bare name (mutant overlay copies)
+                patches=[ES_PATCH, (ES_H, r"virtual_processes\[1\]", "virtual_processes[VP_NVP]")], gen=_ov_inc,
+                restrict_fp=[("__parsec_schedule.function_pointer_call.1", ["rec_schedule"])], kf="C08-flush-private-stale-ring",
+                info={"symbolic": ["ring sizes of the two VPs (0..2, not both empty)", "submitter: NULL / stream of VP0 / stream of VP1 / communication thread",
+                                   "distance 0..2", "parsec_runtime_keep_highest_priority_task", "whether the submitter's next_task slot is occupied",
+                                   "stream reported by parsec_my_execution_stream()"],
+                      "stubs": ["installed scheduler module = recording stub (walks the ring it is given)", "parsec_my_execution_stream -> harness variable",
+                                "parsec_pins_instrument -> empty (PINS mask 0)"],
+                      "bounds": {"VPs": 2, "streams": "2+1", "tasks": "<=4"},
+                      "functions": ["__parsec_schedule_vp", "__parsec_schedule", "__parsec_schedule_flush_private"]},
+                timeout=1200, tiers=both))
     return qs
 
 
@@ -247,6 +262,17 @@ def mutants(ctx):
                "for(i = 0; i <  PARSEC_MCA_SCHED_LOCAL_QUEUES_OBJECT(es)->nb_hierarch_queues - 1; i++ ) {",
                queries=["lhq_e2_21_small_d10_s011", "lhq_e2_21_small_d21_s100"]),
         # rnd: the re-sorted ring is dropped, only its head is chained
+        # dispatch: the ring slot of a VP is not cleared after it was scheduled
+        Mutant("schedule_vp_ring_slot_not_cleared", "parsec/scheduling.c",
+               "        ret = __parsec_schedule(target_es, ring, distance);\n        if( 0 != ret )\n            return ret;\n\n        task_rings[vp] = NULL;  /* remove the tasks already scheduled */\n    }\n    return ret;\n}\n\nint __parsec_schedule_flush_private",
+               "        ret = __parsec_schedule(target_es, ring, distance);\n        if( 0 != ret )\n            return ret;\n    }\n    return ret;\n}\n\nint __parsec_schedule_flush_private",
+               queries=["schedule_vp"]),
+        # dispatch: an occupied next_task slot is overwritten (the task that was there is lost)
+        Mutant("schedule_vp_overwrites_next_task", "parsec/scheduling.c", "            if( NULL == submission_es->next_task ) {\n                submission_es->next_task = ring;",
+               "            if( 1 ) {\n                submission_es->next_task = ring;", queries=["schedule_vp"]),
+        # dispatch: the local-VP test is inverted: the submitter keeps / receives the tasks of the OTHER virtual process
+        Mutant("schedule_vp_wrong_vp_kept", "parsec/scheduling.c", "        if( vp == submission_es->virtual_process->vp_id ) {\n            if( NULL == submission_es->next_task ) {",
+               "        if( vp != submission_es->virtual_process->vp_id ) {\n            if( NULL == submission_es->next_task ) {", queries=["schedule_vp"]),
         Mutant("rnd_chains_singleton", UNIT["rnd"], "new_context = (parsec_task_t*)parsec_list_nolock_unchain(&tmp);",
                "new_context = (parsec_task_t*)parsec_list_nolock_unchain(&tmp); parsec_list_item_singleton(&new_context->super);", queries=["rnd_e2_21_s011"]),
     ]
@@ -260,10 +286,13 @@ MANIFEST = {
          "then every stream drains; a bookkeeping oracle in the harness requires that a select only ever returns a task that is pending "
          "(never twice, never an unknown pointer), that all tasks have come out when every stream reports empty, and, for the modules "
          "whose streams can reach every queue, that NULL is only returned when nothing is pending.  Bounded buffers are 1-2 slots so "
-         "that the overflow-to-parent paths run.",
+         "that the overflow-to-parent paths run.  A separate query runs the real __parsec_schedule_vp / "
+         "__parsec_schedule_flush_private of scheduling.c over two VPs with a recording module: every submitted task is handed to the "
+         "module exactly once on a stream of its own VP or retained (one, head of the ring, own VP, free slot only) and flushed once.",
  "note": "operations are complete (no interleaving inside schedule/select: containers' own properties); ltq not covered (no verdict "
          "within budget); lfq/pbq queues wired by the harness (their two-barrier flow_init is not executed); spq/lhq distances and "
          "streams enumerated; lhq on one 2-level topology with scaled queue sizes; overlays: typed allocations for struct-hack "
-         "arrays, pointer-typed CAS, field-wise 128-bit CAS of the LIFO head, char* priority access.",
+         "arrays, pointer-typed CAS, field-wise 128-bit CAS of the LIFO head, char* priority access; "
+         "known finding C08-flush-private-stale-ring (flush of a retained task from a ring of >=2) is excluded and reported.",
  "technique": "CBMC bounded symbolic execution of the real C units + SAT (cadical); operation histories with symbolic streams/distances/priorities",
 }
